@@ -68,6 +68,9 @@ def char_cols(ch):
         else: return max(v, 1) if v >= 0 else 1
     return 1
 def text_cols(s): return sum(char_cols(c) for c in s if c != '\x00')
+def row_cols(s):
+    """columns an input row takes in the grid (StringBuffer::from): every character at least one, a literal NUL too"""
+    return sum(char_cols(c) for c in s)
 
 def frag_bounds(f):
     """bounds in ticks of a dumped fragment: ((x0,y0),(x1,y1))"""
